@@ -1,4 +1,687 @@
+//! C18 — GFF3 / GTF / BED lines round-trip, including escaping of reserved characters.
+//!
+//! E3: complete single-byte sweeps (0x01..=0xff alone / embedded / leading / trailing) of every
+//! free-text column and attribute tag / value, and all pairs of the named troublemakers.
+//! E1: record grammars (all records within k field deviations of three base records), line
+//! sequences with directives and comments, BED3..BED6 with 0..9 other fields.
+//! Oracles: the input value (inverse law through the owned and the lazy read path), a line parser
+//! written here from the GFF3 / GTF specifications (written text), lazy view vs the owned record
+//! built from it.
+
+mod bed;
+mod gff3;
+mod gtf;
+mod model;
+
+use std::sync::atomic::{AtomicU64, Ordering::Relaxed};
+
+use vmc::{Chooser, Config, Outcome, json};
+
+use crate::{
+    bed::{BRec, BVal},
+    gff3::{MDir, MLine},
+    gtf::TLine,
+    model::{B, GRec, SHAPES, TROUBLE, shape},
+};
+
+// ------------------------------------------------------------------------------------------------
+// GFF3
+// ------------------------------------------------------------------------------------------------
+
+const GFF_FIELDS: [&str; 7] = ["seqid", "source", "type", "attr-tag", "attr-value", "attr-array-first", "attr-array-last"];
+
+fn gff_probe(field: usize, v: B) -> GRec {
+    let mut x = GRec::plain();
+    let id = (b"ID".to_vec(), vec![b"g1".to_vec()]);
+    match field {
+        0 => x.seqid = v,
+        1 => x.source = v,
+        2 => x.ty = v,
+        3 => x.attrs = vec![id, (v, vec![b"v".to_vec()])],
+        4 => x.attrs = vec![id, (b"Note".to_vec(), vec![v])],
+        5 => x.attrs = vec![id, (b"Note".to_vec(), vec![v, b"z".to_vec()])],
+        _ => x.attrs = vec![(b"Note".to_vec(), vec![b"z".to_vec(), b"y".to_vec(), v]), id],
+    }
+    x
+}
+
+#[derive(Default)]
+struct Counts {
+    accepted: AtomicU64,
+    rejected: AtomicU64,
+    excluded: AtomicU64,
+    escaped: AtomicU64,
+}
+
+fn gff_single(x: GRec, c: &Counts) -> Outcome {
+    let r = gff3::check_attributed(&[MLine::Rec(x)], false);
+    if r.rejected {
+        c.rejected.fetch_add(1, Relaxed);
+    } else {
+        c.accepted.fetch_add(1, Relaxed);
+        if r.written.as_ref().map(|w| w.contains(&b'%')).unwrap_or(false) {
+            c.escaped.fetch_add(1, Relaxed);
+        }
+    }
+    match gff3::pick(r.violations) {
+        Some(v) => Err(v),
+        None => Ok(()),
+    }
+}
+
+fn pick_text(ch: &Chooser, label: &'static str, keep: &B, alphabet: &[&[u8]]) -> B {
+    let k = ch.dev(label, alphabet.len() + 1);
+    if k == 0 { keep.clone() } else { alphabet[k - 1].to_vec() }
+}
+
+const SCORES: [Option<f32>; 13] = [
+    None,
+    Some(0.0),
+    Some(1.0),
+    Some(-1.5),
+    Some(0.1),
+    Some(1e-7),
+    Some(f32::MAX),
+    Some(f32::MIN_POSITIVE),
+    Some(-0.0),
+    Some(1e10),
+    Some(16777217.0),
+    Some(f32::INFINITY),
+    Some(f32::NEG_INFINITY),
+];
+
+const POSITIONS: [usize; 4] = [1, 2, 1000, usize::MAX];
+
+fn gff_bases() -> Vec<GRec> {
+    let s = |x: &str| x.as_bytes().to_vec();
+    let mut gene = GRec::plain();
+    gene.start = 10;
+    gene.end = 20;
+    gene.strand = 1;
+    gene.attrs = vec![(s("ID"), vec![s("gene0")]), (s("Name"), vec![s("ndls0")])];
+    let mut cds = GRec::plain();
+    cds.ty = s("CDS");
+    cds.start = 11;
+    cds.end = 19;
+    cds.score = Some(0.5);
+    cds.strand = 2;
+    cds.phase = Some(0);
+    cds.attrs = vec![(s("ID"), vec![s("cds0")]), (s("Parent"), vec![s("mrna0"), s("mrna1")]), (s("Dbxref"), vec![s("a:1"), s("b:2"), s("c:3")])];
+    vec![GRec::plain(), gene, cds]
+}
+
+/// Applies the deviation choices common to GFF3 and GTF to `x`.
+fn deviate(ch: &Chooser, x: &mut GRec, text: &[&[u8]], keys: &[&[u8]], seqids: &[&[u8]], types: &[&[u8]]) {
+    x.seqid = pick_text(ch, "seqid", &x.seqid.clone(), seqids);
+    x.source = pick_text(ch, "source", &x.source.clone(), text);
+    x.ty = pick_text(ch, "type", &x.ty.clone(), types);
+    let k = ch.dev("start", POSITIONS.len() + 1);
+    if k > 0 {
+        x.start = POSITIONS[k - 1];
+    }
+    let k = ch.dev("end", POSITIONS.len() + 1);
+    if k > 0 {
+        x.end = POSITIONS[k - 1];
+    }
+    let k = ch.dev("score", SCORES.len() + 1);
+    if k > 0 {
+        x.score = SCORES[k - 1];
+    }
+    x.strand = (x.strand + ch.dev("strand", 4) as u8) % 4;
+    let k = ch.dev("phase", 5);
+    if k > 0 {
+        x.phase = [None, Some(0), Some(1), Some(2)][k - 1];
+    }
+    let k = ch.dev("n_attrs", 5);
+    if k > 0 {
+        let n = k - 1;
+        x.attrs.truncate(n);
+        while x.attrs.len() < n {
+            let i = x.attrs.len();
+            x.attrs.push((format!("t{i}").into_bytes(), vec![b"v".to_vec()]));
+        }
+    }
+    for i in 0..x.attrs.len() {
+        let (tag, vals) = x.attrs[i].clone();
+        let tag = pick_text(ch, "attr.tag", &tag, keys);
+        let mut vals = vals;
+        let k = ch.dev("attr.n_values", 4);
+        if k > 0 {
+            vals.truncate(k);
+            while vals.len() < k {
+                vals.push(format!("w{}", vals.len()).into_bytes());
+            }
+        }
+        for v in vals.iter_mut() {
+            *v = pick_text(ch, "attr.value", &v.clone(), text);
+        }
+        x.attrs[i] = (tag, vals);
+    }
+    // duplicate tags collapse in the owned record (IndexMap): keep tags distinct
+    for i in 1..x.attrs.len() {
+        if x.attrs[..i].iter().any(|(t, _)| *t == x.attrs[i].0) {
+            x.attrs[i].0.extend_from_slice(format!("_{i}").as_bytes());
+        }
+    }
+    x.one_as_array = ch.dev("one_as_array", 2) == 1;
+}
+
+fn gff_grammar(ch: &Chooser) -> Outcome {
+    let bases = gff_bases();
+    let mut x = ch.pick_free("base", &bases).clone();
+    let mut types: Vec<&[u8]> = TROUBLE.to_vec();
+    types.push(b"CDS");
+    types.push(b"gene");
+    deviate(ch, &mut x, &TROUBLE, &TROUBLE, &TROUBLE, &types);
+    let ctx = ch.dev("context", 6);
+    let use_write_line = ch.dev("write_line", 2) == 1;
+    let mut other = GRec::plain();
+    other.seqid = b"sq1".to_vec();
+    other.attrs = vec![(b"ID".to_vec(), vec![b"o".to_vec()]), (b"Alias".to_vec(), vec![b"p".to_vec(), b"q".to_vec()])];
+    let lines = match ctx {
+        0 => vec![MLine::Rec(x)],
+        1 => vec![MLine::Dir(MDir::Version("3")), MLine::Rec(x)],
+        2 => vec![MLine::Comment(b" a comment".to_vec()), MLine::Rec(x)],
+        3 => vec![MLine::Rec(x), MLine::Rec(other)],
+        4 => vec![MLine::Rec(other), MLine::Rec(x)],
+        _ => vec![MLine::Rec(other.clone()), MLine::Rec(x), MLine::Dir(MDir::Other(b"#".to_vec(), None)), MLine::Rec(other)],
+    };
+    ch.desc(|| gff3::describe(&lines));
+    let r = gff3::check_attributed(&lines, use_write_line);
+    match &r.written {
+        Some(w) => {
+            ch.obs(w);
+            ch.tag("writer-accepted");
+            if w.contains(&b'%') {
+                ch.tag("percent-escape-written");
+            }
+        }
+        None => {
+            ch.obs(b"rejected");
+            ch.tag("writer-rejected");
+        }
+    }
+    ch.steps(lines.len() as u64 * 3);
+    match gff3::pick(r.violations) {
+        Some(v) => Err(v),
+        None => Ok(()),
+    }
+}
+
+fn gff_line_alphabet() -> Vec<MLine> {
+    let s = |x: &str| x.as_bytes().to_vec();
+    let bases = gff_bases();
+    let mut wide = GRec::plain();
+    wide.seqid = s("a_much_longer_sequence_id");
+    wide.source = s("s");
+    wide.ty = s("five_prime_UTR");
+    wide.start = 123456789;
+    wide.end = 987654321;
+    wide.score = Some(1e-7);
+    wide.attrs = vec![(s("Note"), vec![s("x;y=z,&%")])];
+    vec![
+        MLine::Rec(bases[0].clone()),
+        MLine::Rec(bases[2].clone()),
+        MLine::Rec(wide),
+        MLine::Dir(MDir::Version("3")),
+        MLine::Dir(MDir::Version("3.1")),
+        MLine::Dir(MDir::Version("3.1.26")),
+        MLine::Dir(MDir::SeqRegion(s("sq0"), 1, 8)),
+        MLine::Dir(MDir::SeqRegion(s("chr|1:x"), 5, usize::MAX)),
+        MLine::Dir(MDir::GenomeBuild(s("NCBI"), s("GRCh38.p14"))),
+        MLine::Dir(MDir::Other(s("feature-ontology"), Some(s("http://example.org/so.obo#x")))),
+        MLine::Dir(MDir::Other(s("species"), Some(s("two words  double space")))),
+        MLine::Dir(MDir::Other(s("custom"), Some(s("")))),
+        MLine::Dir(MDir::Other(s("custom"), Some(s(" leading and trailing ")))),
+        MLine::Dir(MDir::Other(s("custom"), None)),
+        MLine::Dir(MDir::Other(s("#"), None)),
+        MLine::Dir(MDir::Other(s("k\u{e9}y"), Some(s("v\u{e9}\u{7f}=;,%41")))),
+        MLine::Comment(s(" free text")),
+        MLine::Comment(s("")),
+        MLine::Dir(MDir::Other(s("FASTA"), None)),
+    ]
+}
+
+fn gff_lines(ch: &Chooser, depth: usize) -> Outcome {
+    let alphabet = gff_line_alphabet();
+    let mut lines = Vec::new();
+    for _ in 0..depth {
+        let k = ch.free("line", alphabet.len() + 1);
+        if k == 0 {
+            break;
+        }
+        lines.push(alphabet[k - 1].clone());
+    }
+    if lines.is_empty() {
+        ch.obs(b"empty");
+        return Ok(());
+    }
+    let use_write_line = ch.free("write_line", 2) == 1;
+    ch.desc(|| gff3::describe(&lines));
+    let r = gff3::check_attributed(&lines, use_write_line);
+    if let Some(w) = &r.written {
+        ch.obs(w);
+    }
+    if lines.iter().any(|l| matches!(l, MLine::Dir(_))) {
+        ch.tag("directive");
+    }
+    ch.steps(lines.len() as u64 * 3);
+    match gff3::pick(r.violations) {
+        Some(v) => Err(v),
+        None => Ok(()),
+    }
+}
+
+// ------------------------------------------------------------------------------------------------
+// GTF
+// ------------------------------------------------------------------------------------------------
+
+const GTF_FIELDS: [&str; 6] = ["seqid", "source", "type", "attr-key", "attr-value", "attr-value-multi"];
+
+const GTF_TROUBLE: [&[u8]; 24] = [
+    b"%25", b"%", b";=", b",", b"&", b">x", b"x ", b" ", b"", b"\xc3\xa9", b"a=b", b"a;b", b".", b"\x7f", b"\x01", b"a\"b", b"a\\b", b"\"", b"\\", b"a\\\"b", b"; ", b"x#y", b"\\n", b"a\"; b \"c",
+];
+
+/// The domain of the statement for GTF: plain columns free of tab and line terminators; a key is a
+/// non-empty token without ASCII white space; a leading '#' in column 1 makes the line a comment.
+fn gtf_in_domain(x: &GRec) -> bool {
+    let delim_free = |v: &B| !v.iter().any(|c| matches!(c, b'\t' | b'\n' | b'\r'));
+    delim_free(&x.seqid)
+        && delim_free(&x.source)
+        && delim_free(&x.ty)
+        && x.seqid.first() != Some(&b'#')
+        && x.attrs.iter().all(|(k, vals)| !k.is_empty() && !k.iter().any(|c| c.is_ascii_whitespace()) && vals.iter().all(delim_free))
+}
+
+fn gtf_probe(field: usize, v: B) -> GRec {
+    let mut x = GRec::plain();
+    let id = (b"gene_id".to_vec(), vec![b"g1".to_vec()]);
+    let tail = (b"transcript_id".to_vec(), vec![b"t1".to_vec()]);
+    match field {
+        0 => x.seqid = v,
+        1 => x.source = v,
+        2 => x.ty = v,
+        3 => x.attrs = vec![id, (v, vec![b"v".to_vec()]), tail],
+        4 => x.attrs = vec![id, (b"note".to_vec(), vec![v]), tail],
+        _ => x.attrs = vec![id, (b"tag".to_vec(), vec![b"z".to_vec(), v, b"y".to_vec()]), tail],
+    }
+    x
+}
+
+fn gtf_single(x: GRec, c: &Counts) -> Outcome {
+    if !gtf_in_domain(&x) {
+        c.excluded.fetch_add(1, Relaxed);
+        return Ok(());
+    }
+    let r = gtf::check_attributed(&[TLine::Rec(x)], false);
+    if r.rejected {
+        c.rejected.fetch_add(1, Relaxed);
+    } else {
+        c.accepted.fetch_add(1, Relaxed);
+        if r.written.as_ref().map(|w| w.contains(&b'\\')).unwrap_or(false) {
+            c.escaped.fetch_add(1, Relaxed);
+        }
+    }
+    match gtf::pick(r.violations) {
+        Some(v) => Err(v),
+        None => Ok(()),
+    }
+}
+
+fn gtf_bases() -> Vec<GRec> {
+    let s = |x: &str| x.as_bytes().to_vec();
+    let mut exon = GRec::plain();
+    exon.ty = s("exon");
+    exon.start = 10;
+    exon.end = 20;
+    exon.strand = 1;
+    exon.attrs = vec![(s("gene_id"), vec![s("g0")]), (s("transcript_id"), vec![s("t0")])];
+    let mut cds = GRec::plain();
+    cds.ty = s("CDS");
+    cds.start = 11;
+    cds.end = 19;
+    cds.score = Some(0.5);
+    cds.strand = 2;
+    cds.phase = Some(0);
+    cds.attrs = vec![(s("gene_id"), vec![s("g0")]), (s("transcript_id"), vec![s("t0")]), (s("tag"), vec![s("basic"), s("CCDS"), s("x y")]), (s("exon_number"), vec![s("1")])];
+    vec![GRec::plain(), exon, cds]
+}
+
+fn gtf_grammar(ch: &Chooser) -> Outcome {
+    let bases = gtf_bases();
+    let mut x = ch.pick_free("base", &bases).clone();
+    let keys: Vec<&[u8]> = GTF_TROUBLE.iter().copied().filter(|k| !k.is_empty() && !k.iter().any(|c| c.is_ascii_whitespace())).collect();
+    let seqids: Vec<&[u8]> = GTF_TROUBLE.iter().copied().filter(|k| k.first() != Some(&b'#')).collect();
+    let mut types: Vec<&[u8]> = GTF_TROUBLE.to_vec();
+    types.push(b"CDS");
+    deviate(ch, &mut x, &GTF_TROUBLE, &keys, &seqids, &types);
+    if !gtf_in_domain(&x) {
+        vmc::machinery("gtf_grammar generated a record outside the domain");
+    }
+    let ctx = ch.dev("context", 5);
+    let use_write_line = ch.dev("write_line", 2) == 1;
+    let mut other = GRec::plain();
+    other.seqid = b"sq1".to_vec();
+    other.attrs = vec![(b"gene_id".to_vec(), vec![b"o".to_vec()]), (b"tag".to_vec(), vec![b"p".to_vec(), b"q".to_vec()])];
+    let lines = match ctx {
+        0 => vec![TLine::Rec(x)],
+        1 => vec![TLine::Comment(b" a comment".to_vec()), TLine::Rec(x)],
+        2 => vec![TLine::Rec(x), TLine::Rec(other)],
+        3 => vec![TLine::Rec(other), TLine::Rec(x)],
+        _ => vec![TLine::Rec(other.clone()), TLine::Rec(x), TLine::Comment(b"#".to_vec()), TLine::Rec(other)],
+    };
+    ch.desc(|| gtf::describe(&lines));
+    let r = gtf::check_attributed(&lines, use_write_line);
+    match &r.written {
+        Some(w) => {
+            ch.obs(w);
+            ch.tag("writer-accepted");
+            if w.contains(&b'\\') {
+                ch.tag("backslash-escape-written");
+            }
+        }
+        None => {
+            ch.obs(b"rejected");
+            ch.tag("writer-rejected");
+        }
+    }
+    ch.steps(lines.len() as u64 * 3);
+    match gtf::pick(r.violations) {
+        Some(v) => Err(v),
+        None => Ok(()),
+    }
+}
+
+// ------------------------------------------------------------------------------------------------
+// BED
+// ------------------------------------------------------------------------------------------------
+
+const BED_FIELDS: [&str; 5] = ["chrom", "name", "other-string", "other-string-last", "other-char"];
+
+fn bed_probe(n: usize, field: usize, v: B) -> Option<BRec> {
+    let mut x = BRec::plain(n);
+    match field {
+        0 => x.chrom = v,
+        1 => {
+            if n < 4 {
+                return None;
+            }
+            x.name = Some(v)
+        }
+        2 => x.others = vec![BVal::S(v), BVal::S(b"z".to_vec())],
+        3 => x.others = vec![BVal::I(7), BVal::S(v)],
+        _ => {
+            if v.len() != 1 {
+                return None;
+            }
+            x.others = vec![BVal::C(v[0]), BVal::U(9)]
+        }
+    }
+    Some(x)
+}
+
+fn first_violation(v: Vec<vmc::Violation>) -> Outcome {
+    match v.into_iter().next() {
+        Some(v) => Err(v),
+        None => Ok(()),
+    }
+}
+
+fn bed_single(x: BRec, c: &Counts) -> Outcome {
+    // plain columns with tab or line terminators are outside the statement (the writer refuses them anyway)
+    let r = bed::check_file(&[x.clone()]);
+    if r.rejected {
+        c.rejected.fetch_add(1, Relaxed);
+        if bed::spec_accepts(&x) {
+            c.excluded.fetch_add(1, Relaxed);
+        }
+    } else {
+        c.accepted.fetch_add(1, Relaxed);
+    }
+    first_violation(r.violations)
+}
+
+fn bed_other_alphabet() -> Vec<BVal> {
+    let s = |x: &str| BVal::S(x.as_bytes().to_vec());
+    vec![
+        s("x"),
+        s(""),
+        s("a b"),
+        s(" "),
+        s("."),
+        s("#"),
+        s("0,10,20,"),
+        BVal::I(-5),
+        BVal::I(i64::MIN),
+        BVal::U(u64::MAX),
+        BVal::F(0.5),
+        BVal::F(1e300),
+        BVal::F(-0.0),
+        BVal::C(b'x'),
+        BVal::C(b' '),
+        BVal::C(b'~'),
+    ]
+}
+
+fn bed_grammar(ch: &Chooser) -> Outcome {
+    let n = 3 + ch.free("n", 4);
+    let nrec = 1 + ch.free("records", 3);
+    let long = vec![b'a'; 255];
+    let chroms: [&[u8]; 7] = [b"chr_1", b"1", &long, b"", b"a b", b"chr-1", b"_"];
+    let longn = vec![b'~'; 255];
+    let names: [Option<&[u8]>; 11] = [None, Some(b"."), Some(b" "), Some(b"a b"), Some(b"~"), Some(b"#x"), Some(&longn), Some(b""), Some(b"\xc3\xa9"), Some(b"x "), Some(b"..")];
+    let others = bed_other_alphabet();
+    let mut recs = Vec::new();
+    for _ in 0..nrec {
+        let mut x = BRec::plain(n);
+        x.chrom = pick_text(ch, "chrom", &x.chrom.clone(), &chroms);
+        let k = ch.dev("start", POSITIONS.len());
+        x.start = POSITIONS[k];
+        let ends = [Some(1), None, Some(2), Some(1000), Some(usize::MAX)];
+        x.end = ends[ch.dev("end", ends.len())];
+        if n >= 4 {
+            let k = ch.dev("name", names.len() + 1);
+            if k > 0 {
+                x.name = names[k - 1].map(|v| v.to_vec());
+            }
+        }
+        if n >= 5 {
+            x.score = [0u16, 1, 1000, 1001, 65535][ch.dev("score", 5)];
+        }
+        if n >= 6 {
+            x.strand = [None, Some(true), Some(false)][ch.dev("strand", 3)];
+        }
+        let k = ch.dev("n_others", 10);
+        for i in 0..k {
+            let j = ch.dev("other", others.len());
+            // defaults differ per position so that a stale bound is visible
+            let v = if j == 0 { BVal::S(format!("o{i}").into_bytes()) } else { others[j].clone() };
+            x.others.push(v);
+        }
+        recs.push(x);
+    }
+    ch.desc(|| recs.iter().map(bed::literal).collect::<Vec<_>>().join("; "));
+    let r = bed::check_file(&recs);
+    match &r.written {
+        Some(w) => {
+            ch.obs(w);
+            ch.tag("writer-accepted");
+            if recs.iter().any(|x| x.n + x.others.len() == 12) {
+                ch.tag("bed12");
+            }
+        }
+        None => {
+            ch.obs(b"rejected");
+            ch.tag("writer-rejected");
+            if recs.iter().all(bed::spec_accepts) {
+                ch.tag("writer-rejected-a-spec-valid-record");
+            }
+        }
+    }
+    ch.steps(recs.len() as u64 * 2);
+    first_violation(r.violations)
+}
+
 fn main() {
-    println!("MACHINERY-ERROR property=C18 check not built yet");
-    std::process::exit(2);
+    vmc::run("C18", "model_checking", |ctx| {
+        let quick = ctx.quick();
+        let k = ctx.by_tier(2, 3);
+        ctx.rule(
+            "E3 *_bytes: every field (GFF3: seqid, source, type, attribute tag, string value, first/last array element; GTF: seqid, source, type, key, value, \
+             value of a multi-valued key; BED3..6: chrom, name, string other field first/last, character other field) x every byte 0x01..=0xff x {alone, between two letters, leading, trailing}; \
+             *_pairs: every ordered pair of the named troublemakers x 3 placements per field. \
+             E1 *_grammar: every record within k field deviations (k=2 quick, 3 thorough) of three base records over the troublemaker alphabet per text field, boundary positions, 11 scores, \
+             all strands and phases, 0..3 attributes x 1..3 values, one-element array vs string, 5-6 file contexts, write_record vs write_line; gff3_lines: every sequence of <=3 lines over 19 \
+             record/directive/comment lines; bed_grammar: N in 3..=6 x 1..3 records x k deviations incl. 0..9 other fields of every value type. \
+             distinct = distinct written files (observation logs) for E1, accepted (field, shape, byte) cases for E3. \
+             Domain (statement): GTF/BED plain columns free of tab/LF/CR; a GTF key is a non-empty token without ASCII white space; GTF column 1 does not start with '#'; \
+             records the writer refuses (CDS without phase, GTF strand '?', BED non-printable/empty fields) are counted, not judged.",
+        );
+        ctx.assume("Rust's str::parse::<f32>() is a correct decimal-to-float conversion (used to read back written scores independently of lexical-core)");
+
+        // ---- GFF3 sweeps ----
+        let c = Counts::default();
+        let n = (GFF_FIELDS.len() * SHAPES.len() * 255) as u64;
+        let dec = |i: u64| {
+            let i = i as usize;
+            (i / (SHAPES.len() * 255), (i / 255) % SHAPES.len(), (i % 255 + 1) as u8)
+        };
+        ctx.sweep(
+            "gff3_bytes",
+            n,
+            |i| {
+                let (f, s, b) = dec(i);
+                format!("field={} shape={} byte=0x{b:02x}", GFF_FIELDS[f], SHAPES[s])
+            },
+            |i| {
+                let (f, s, b) = dec(i);
+                gff_single(gff_probe(f, shape(&[b], s)), &c)
+            },
+        );
+        let gff_bytes_accepted = c.accepted.load(Relaxed);
+        let t = TROUBLE.len();
+        let n = (GFF_FIELDS.len() * t * t * 3) as u64;
+        let decp = |i: u64| {
+            let i = i as usize;
+            (i / (t * t * 3), (i / (t * 3)) % t, (i / 3) % t, i % 3)
+        };
+        let place = |a: &[u8], b: &[u8], p: usize| -> B {
+            let mut v = Vec::new();
+            match p {
+                0 => {
+                    v.extend_from_slice(a);
+                    v.extend_from_slice(b);
+                }
+                1 => {
+                    v.push(b'a');
+                    v.extend_from_slice(a);
+                    v.extend_from_slice(b);
+                    v.push(b'b');
+                }
+                _ => {
+                    v.extend_from_slice(a);
+                    v.push(b'a');
+                    v.extend_from_slice(b);
+                }
+            }
+            v
+        };
+        ctx.sweep(
+            "gff3_pairs",
+            n,
+            |i| {
+                let (f, a, b, p) = decp(i);
+                format!("field={} value={}", GFF_FIELDS[f], model::lit(&place(TROUBLE[a], TROUBLE[b], p)))
+            },
+            |i| {
+                let (f, a, b, p) = decp(i);
+                gff_single(gff_probe(f, place(TROUBLE[a], TROUBLE[b], p)), &c)
+            },
+        );
+        let gff_accepted = c.accepted.load(Relaxed);
+        ctx.add_distinct(gff_accepted, gff_accepted);
+        let gff_counts = json!({"accepted": gff_accepted, "accepted_in_gff3_bytes": gff_bytes_accepted, "rejected_by_writer": c.rejected.load(Relaxed), "written_with_percent_escape": c.escaped.load(Relaxed)});
+        if c.escaped.load(Relaxed) == 0 {
+            vmc::machinery("C18 vacuity: no percent escape was ever written");
+        }
+
+        // ---- GFF3 grammar and line sequences ----
+        ctx.harness(Config::new(format!("gff3_grammar_k{k}"), k), gff_grammar);
+        let depth = if quick { 3 } else { 4 };
+        ctx.harness(Config::new(format!("gff3_lines_d{depth}"), 0), |ch| gff_lines(ch, depth));
+
+        // ---- GTF ----
+        let c = Counts::default();
+        let n = (GTF_FIELDS.len() * SHAPES.len() * 255) as u64;
+        ctx.sweep(
+            "gtf_bytes",
+            n,
+            |i| {
+                let (f, s, b) = dec(i);
+                format!("field={} shape={} byte=0x{b:02x}", GTF_FIELDS[f], SHAPES[s])
+            },
+            |i| {
+                let (f, s, b) = dec(i);
+                gtf_single(gtf_probe(f, shape(&[b], s)), &c)
+            },
+        );
+        let t = GTF_TROUBLE.len();
+        let n = (GTF_FIELDS.len() * t * t * 3) as u64;
+        let decp = |i: u64| {
+            let i = i as usize;
+            (i / (t * t * 3), (i / (t * 3)) % t, (i / 3) % t, i % 3)
+        };
+        ctx.sweep(
+            "gtf_pairs",
+            n,
+            |i| {
+                let (f, a, b, p) = decp(i);
+                format!("field={} value={}", GTF_FIELDS[f], model::lit(&place(GTF_TROUBLE[a], GTF_TROUBLE[b], p)))
+            },
+            |i| {
+                let (f, a, b, p) = decp(i);
+                gtf_single(gtf_probe(f, place(GTF_TROUBLE[a], GTF_TROUBLE[b], p)), &c)
+            },
+        );
+        let gtf_accepted = c.accepted.load(Relaxed);
+        ctx.add_distinct(gtf_accepted, gtf_accepted);
+        let gtf_counts = json!({"accepted": gtf_accepted, "rejected_by_writer": c.rejected.load(Relaxed), "outside_the_domain(skipped)": c.excluded.load(Relaxed), "written_with_backslash_escape": c.escaped.load(Relaxed)});
+        if c.escaped.load(Relaxed) == 0 {
+            vmc::machinery("C18 vacuity: no backslash escape was ever written");
+        }
+        ctx.harness(Config::new(format!("gtf_grammar_k{k}"), k), gtf_grammar);
+
+        // ---- BED ----
+        let c = Counts::default();
+        let n = (4 * BED_FIELDS.len() * SHAPES.len() * 255) as u64;
+        let decb = |i: u64| {
+            let i = i as usize;
+            let per_n = BED_FIELDS.len() * SHAPES.len() * 255;
+            (3 + i / per_n, (i % per_n) / (SHAPES.len() * 255), (i / 255) % SHAPES.len(), (i % 255 + 1) as u8)
+        };
+        ctx.sweep(
+            "bed_bytes",
+            n,
+            |i| {
+                let (n, f, s, b) = decb(i);
+                format!("BED{n} field={} shape={} byte=0x{b:02x}", BED_FIELDS[f], SHAPES[s])
+            },
+            |i| {
+                let (n, f, s, b) = decb(i);
+                match bed_probe(n, f, shape(&[b], s)) {
+                    Some(x) => bed_single(x, &c),
+                    None => Ok(()),
+                }
+            },
+        );
+        let bed_accepted = c.accepted.load(Relaxed);
+        ctx.add_distinct(bed_accepted, bed_accepted);
+        let bed_counts = json!({"accepted": bed_accepted, "rejected_by_writer": c.rejected.load(Relaxed), "rejected_although_spec_valid": c.excluded.load(Relaxed)});
+        if bed_accepted == 0 {
+            vmc::machinery("C18 vacuity: the BED writer accepted nothing");
+        }
+        ctx.harness(Config::new(format!("bed_grammar_k{k}"), k), bed_grammar);
+
+        ctx.extra("c18_counters", json!({"gff3_sweeps": gff_counts, "gtf_sweeps": gtf_counts, "bed_sweeps": bed_counts}));
+    });
 }
